@@ -4,6 +4,7 @@ import EaselModel.Shuffle.LemmasMsa
 import EaselModel.Shuffle.LemmasKmer
 import EaselModel.Shuffle.LemmasMarkov1
 import EaselModel.Shuffle.LemmasDP
+import EaselModel.Shuffle.LemmasBEST
 import EaselModel.Shuffle.LemmasQrna
 import EaselModel.Shuffle.LemmasVShuffle
 import EaselModel.Shuffle.LawfulRat
@@ -141,12 +142,14 @@ theorem xShuffleKmers_spec (dsq : Bytes) (L K : Nat) (h : L + 2 ≤ dsq.size) (r
 /-! ## doublet-preserving shuffle (Altschul–Erickson)
 
 Full statement of the property: *for every input and seed* the DP shuffle keeps the ordered-pair counts and the first and
-last residue. What is proved: (i) the conditional form — **if** the routine returns `eslOK` (its two final "reality checks"
-`x == sf`, `pos == len` passed) then the output has the input's length, first residue, last residue and exactly the input's
-multiset of ordered adjacent pairs; (ii) the walk never uses an edge twice, whatever happens. Not proved (hence `_partial`):
-that the checks always pass once the last-edge graph is accepted (the Altschul–Erickson / BEST argument); the harness
-monitors that `eslEINCONCEIVABLE` never appears. The `while (!is_eulerian)` loop is modelled with fuel. -/
-theorem shuffleDP_partial (K : Nat) (codes : List Nat) (hK : ∀ c ∈ codes, c < K) (hlen : 2 < codes.length) (r : Rng)
+last residue. Proved in two halves that together give it for every generator state:
+(i) `shuffleDP_ok` — if the routine returns `eslOK` (its two final "reality checks" `x == sf`, `pos == len` passed) the
+output has the input's length, first residue, last residue and exactly the input's multiset of ordered adjacent pairs;
+(ii) `shuffleDP_checks_never_fire` — the Altschul–Erickson/BEST argument: once the code's connectivity test has accepted
+the last-edge graph, the walk ends on `s_f` having used every edge, so the checks cannot fire (`eslEINCONCEIVABLE` is
+unreachable). The only residue is the `while (!is_eulerian)` retry loop, modelled with fuel (`nohalt`): it ends with
+probability 1, not for every stream. -/
+theorem shuffleDP_ok (K : Nat) (codes : List Nat) (hK : ∀ c ∈ codes, c < K) (hlen : 2 < codes.length) (r : Rng)
     (out : Array Nat) (h : (shuffleDPcore K codes r).1 = .ok out) :
     out.size = codes.length ∧ out.toList.head? = codes.head? ∧ out.toList.getLast? = codes.getLast? ∧
       (adjPairs out.toList).Perm (adjPairs codes) :=
@@ -154,7 +157,7 @@ theorem shuffleDP_partial (K : Nat) (codes : List Nat) (hK : ∀ c ∈ codes, c 
 
 /-- `esl_rsq_CShuffleDP`: on `eslOK`, either the input has length `≤ 2` and is copied, or the (upper-cased) output keeps
     length, first and last residue and the ordered-pair multiset of the case-folded input -/
-theorem cShuffleDP_partial (s : Bytes) (r : Rng) (out : Bytes) (h : (cShuffleDP s r).1 = .ok out) :
+theorem cShuffleDP_ok (s : Bytes) (r : Rng) (out : Bytes) (h : (cShuffleDP s r).1 = .ok out) :
     (s.size ≤ 2 ∧ out = s) ∨
     ∃ codes, out = ofCodesText codes ∧ codes.size = s.size ∧ codes.toList.head? = (textCodes s).head? ∧
       codes.toList.getLast? = (textCodes s).getLast? ∧ (adjPairs codes.toList).Perm (adjPairs (textCodes s)) := by
@@ -177,7 +180,7 @@ theorem cShuffleDP_partial (s : Bytes) (r : Rng) (out : Bytes) (h : (cShuffleDP 
       exact Or.inr ⟨codes, h3, by simpa [textCodes] using a1, a2, a3, a4⟩
 
 /-- `esl_rsq_XShuffleDP` -/
-theorem xShuffleDP_partial (dsq : Bytes) (L K : Nat) (hL : L + 2 ≤ dsq.size) (r : Rng) (out : Bytes) (h : (xShuffleDP dsq L K r).1 = .ok out) :
+theorem xShuffleDP_ok (dsq : Bytes) (L K : Nat) (hL : L + 2 ≤ dsq.size) (r : Rng) (out : Bytes) (h : (xShuffleDP dsq L K r).1 = .ok out) :
     (L ≤ 2 ∧ out = dsq) ∨
     ∃ codes, out = ofCodesDigital codes ∧ codes.size = L ∧ codes.toList.head? = (digitalCodes dsq L).head? ∧
       codes.toList.getLast? = (digitalCodes dsq L).getLast? ∧ (adjPairs codes.toList).Perm (adjPairs (digitalCodes dsq L)) := by
@@ -196,6 +199,65 @@ theorem xShuffleDP_partial (dsq : Bytes) (L K : Nat) (hL : L + 2 ≤ dsq.size) (
         exact hval c hc
       obtain ⟨a1, a2, a3, a4⟩ := shuffleDPcore_ok K (digitalCodes dsq L) hK (by omega) r codes _ h1
       exact Or.inr ⟨codes, h3, by omega, a2, a3, a4⟩
+
+
+/-- the reality checks never fire: for every input longer than 2 over vertices `< K` and every generator state the core
+    returns `ok` — or `nohalt` when the retry loop exhausted its fuel (the C code would go on drawing) -/
+theorem shuffleDP_checks_never_fire (K : Nat) (codes : List Nat) (hK : ∀ c ∈ codes, c < K) (hlen : 2 < codes.length) (r : Rng) :
+    (∃ out r', shuffleDPcore K codes r = (.ok out, r')) ∨ shuffleDPcore K codes r = (.nohalt, r) :=
+  shuffleDPcore_total K codes hK hlen r
+
+/-- **DP shuffle, full form**: for every valid input and every generator state, unless the retry loop ran out of fuel, the
+    output has the input's length, first and last residue and ordered-pair multiset -/
+theorem shuffleDP_spec (K : Nat) (codes : List Nat) (hK : ∀ c ∈ codes, c < K) (hlen : 2 < codes.length) (r : Rng) :
+    shuffleDPcore K codes r = (.nohalt, r) ∨
+    ∃ out r', shuffleDPcore K codes r = (.ok out, r') ∧ out.size = codes.length ∧ out.toList.head? = codes.head? ∧
+      out.toList.getLast? = codes.getLast? ∧ (adjPairs out.toList).Perm (adjPairs codes) := by
+  rcases shuffleDPcore_total K codes hK hlen r with ⟨out, r', h⟩ | h
+  · exact Or.inr ⟨out, r', h, shuffleDPcore_ok K codes hK hlen r out r' h⟩
+  · exact Or.inl h
+
+/-- `esl_rsq_CShuffleDP` never returns `eslEINCONCEIVABLE`; it returns `eslEINVAL` exactly for non-alphabetic input -/
+theorem cShuffleDP_status (s : Bytes) (r : Rng) :
+    (cShuffleDP s r).1 ≠ .einconceivable ∧ (cShuffleDP s r).1 ≠ .fatal ∧
+      ((cShuffleDP s r).1 = .einval ↔ s.any (fun c => !isAlpha c) = true) := by
+  unfold cShuffleDP
+  split
+  · rename_i h; simp [h]
+  · rename_i halpha
+    split
+    · simp [halpha]
+    · rename_i h2
+      have hK : ∀ c ∈ textCodes s, c < 26 := by
+        intro c hc
+        simp only [textCodes, List.mem_map] at hc
+        obtain ⟨b, hb, rfl⟩ := hc
+        apply letterCode_lt
+        simp only [Array.any_eq_true', not_exists, not_and, Bool.not_eq_true, Bool.not_eq_false'] at halpha
+        simpa using halpha b (by simpa using hb)
+      rcases shuffleDPcore_total 26 (textCodes s) hK (by simp [textCodes]; omega) r with ⟨out, r', h⟩ | h
+      · rw [h]; simp [ofDP, halpha]
+      · rw [h]; simp [ofDP, halpha]
+
+/-- `esl_rsq_XShuffleDP` never returns `eslEINCONCEIVABLE`; `eslEINVAL` exactly when a residue code is `≥ K` -/
+theorem xShuffleDP_status (dsq : Bytes) (L K : Nat) (hL : L + 2 ≤ dsq.size) (r : Rng) :
+    (xShuffleDP dsq L K r).1 ≠ .einconceivable ∧ (xShuffleDP dsq L K r).1 ≠ .fatal ∧
+      ((xShuffleDP dsq L K r).1 = .einval ↔ (digitalCodes dsq L).any (fun c => c ≥ K) = true) := by
+  have hlen : (digitalCodes dsq L).length = L := by simp [digitalCodes]; omega
+  unfold xShuffleDP
+  split
+  · rename_i h; simp [h]
+  · rename_i hval
+    split
+    · simp [hval]
+    · rename_i h2
+      have hK : ∀ c ∈ digitalCodes dsq L, c < K := by
+        intro c hc
+        simp only [List.any_eq_true, not_exists, not_and, decide_eq_true_eq, Nat.not_le] at hval
+        exact hval c hc
+      rcases shuffleDPcore_total K (digitalCodes dsq L) hK (by omega) r with ⟨out, r', h⟩ | h
+      · rw [h]; simp [ofDP, hval]
+      · rw [h]; simp [ofDP, hval]
 
 /-- the walk of step (6) consumes each edge of the edge ordering at most once (unconditionally) -/
 theorem dpWalk_edges_once (E : Edges) (K c0 : Nat) (hlt : ∀ v y, y ∈ elist E v → y < K) (hc0 : c0 < K)
@@ -280,7 +342,7 @@ example : LawfulCNum ℚ := inferInstance
 /-! non-vacuity: concrete instances of the hypotheses -/
 example : (3 : Nat) + 2 ≤ (#[255, 1, 2, 3, 255] : Bytes).size := by decide
 example : ∀ k (hk : k < (#[#[1, 2, 3], #[4, 5, 6]] : Array Bytes).size), 0 + 3 ≤ (#[#[1, 2, 3], #[4, 5, 6]] : Array Bytes)[k].size := by decide
-/-- a run of the DP shuffle that returns `ok` (legacy LCG generator, seed 1): hypotheses of `shuffleDP_partial` are satisfiable -/
+/-- a run of the DP shuffle that returns `ok` (legacy LCG generator, seed 1): hypotheses of `shuffleDP_ok` are satisfiable -/
 example : (shuffleDPcore 3 [0,1,2,0,1,0] (Rng.create .fast 1)).1 = .ok #[0, 1, 0, 1, 2, 0] := by decide +kernel
 example : (∀ c ∈ [0,1,2,0,1,0], c < 3) ∧ 2 < [0,1,2,0,1,0].length := by decide
 example : (reverse false (#[1, 2, 3] : Array Nat) #[0, 0, 0] 0 3) = #[3, 2, 1] := by decide
